@@ -29,7 +29,7 @@ theorem C08_stream_prefix (cap : Nat) (L : List (Codec × Layout × Obj))
         { st := { obj := statsDefault, inp := (flat cap L).take m } }).outcome = none := by
   obtain ⟨ds, d1, d2, d3⟩ := parse_prefix cap L hL m ((flat cap L).take m)
     { st := { obj := statsDefault, inp := (flat cap L).take m } } (4 * ((flat cap L).take m).length + 64 + L.length)
-    ⟨⟨rfl, rfl, Nat.zero_le _, rfl⟩, rfl, rfl⟩ (by simp) (by omega)
+    ⟨⟨rfl, rfl, Nat.zero_le _, rfl⟩, rfl, rfl⟩ (by simp) (by have := (jOf_le cap L (fun x hx => (hL x hx).1) m).1; omega)
   exact ⟨ds, by rw [d1]; simp, d2, d3⟩
 
 theorem C08_monotone (cap : Nat) (L : List (Codec × Layout × Obj)) (m m' : Nat) (h : m ≤ m') :
